@@ -6,6 +6,9 @@ R3 special files are never (re)opened for I/O: is_safe_inode gates every non-O_P
 R4 every libc result is tested and converted with last_os_error() on the failing edge
 R5 flag algebra: writeback open flags, O_DIRECT handling, fd-flag refresh
 R6 field-wise coherence: utimens slot selection in setattr, statx -> stat64 conversion, the CAP_FSETID guard
+R4 (cont.) errno is read exactly on the failure edge (`res < 0`, `res != 0` for 0-on-success calls)
+R2 (cont.) every switch site passes (ctx.uid, ctx.gid) in that order
+R7 decision table in guard normal form: where CAP_FSETID is dropped, size probe vs value of the xattr getters, access() permission paths, open options per cache policy, the xattr configuration switch
 """
 import json
 import os
@@ -576,3 +579,4 @@ META = {
     "note": "Not decided (run-time quantities, declared not applicable for this technique): equality of replies and resulting tree with the host's "
             "over all request histories and the configuration matrix.",
 }
+META["text"] += " " + 'Also: errno read on the failure edge only; ids at every credential switch; utimens slot selection, statx->stat64 field map, CAP_FSETID effective-set pairing; a decision table (kill-priv sites, xattr size probe, access() paths, open options, xattr switch).'
